@@ -1,5 +1,170 @@
-(* placeholder while the pipeline is brought up *)
-From Coq Require Import List.
-From SC Require Import C12.Model.
-Theorem C12_placeholder : forall (l : list nat) i, length (upd l i 0) = length l.
-Proof. induction l; destruct i; simpl; auto. Qed.
+(* C12 — k-means: centroids are cluster means; rows are assigned to the nearest centroid.
+   Property theorems only.  All statements are about the executable model SC.C12.Model instantiated
+   at the real numbers (`ROps`, exact arithmetic); the correspondence check runs the same generic
+   definitions at binary64 (`FOps`) against src/cluster/kmeans.rs and
+   src/algorithm/neighbour/bbd_tree.rs, on the implementation's own tree dumps and recorded seedings,
+   and evaluates `wf_bbd` (the hypothesis below) on every dumped tree.
+   Notation: `asg memb r` is the label of row r, `lsum f l` the sum of f over the index list l,
+   `lcount p l` the number of indices in l satisfying p. *)
+From Coq Require Import List Arith Bool Reals Lra Lia.
+From SC Require Import Base.Num C12.Model C12.ProofsBase C12.ProofsTree C12.ProofsFilter C12.ProofsKMeans.
+Import ListNotations.
+Open Scope R_scope.
+
+(* The geometric lemma behind BBDTree::prune: if the test succeeds, every point of the box
+   [center - radius, center + radius] is at least as close to `best` as to `test`. *)
+Theorem C12_prune_sound : forall center radius centroids best test x,
+  length center = length x -> length radius = length x ->
+  length (nth best centroids []) = length x -> length (nth test centroids []) = length x ->
+  in_box ROps 0 center radius x = true ->
+  prune ROps center radius centroids best test = true ->
+  sqdist ROps x (nth best centroids []) <= sqdist ROps x (nth test centroids []).
+Proof. exact prune_sound. Qed.
+
+(* node_cost identity: on a well-formed (sub)tree the cached (sum, cost) give the exact cost of
+   attaching all rows of the node to an arbitrary point c. *)
+Theorem C12_node_cost_identity : forall data perm d t c,
+  wf_tree ROps 0 data perm d t = true ->
+  (forall r, In r (rows_of perm (info_of t)) -> length (nth r data []) = d) -> length c = d ->
+  node_cost ROps (info_of t) c = lsum (fun r => sqdist ROps (nth r data []) c) (rows_of perm (info_of t)).
+Proof. exact wf_node_cost. Qed.
+
+(* The tree-accelerated assignment step.  On EVERY well-formed tree over the data and for EVERY
+   centroid set (coincident centroids, centroids far outside the data, any k >= 1) on which the
+   step does not fail for shape reasons, and whatever the incoming buffers contained:
+   every row is attached to one of its nearest centroids; sums and counts are exactly the
+   per-cluster sums and counts of that assignment; the returned value is its distortion. *)
+Theorem C12_filter_exact : forall data perm t centroids sums counts memb dist sums' counts' memb',
+  wf_bbd ROps 0 data perm t = true ->
+  clustering ROps perm centroids t (sums, counts, memb) = Some (dist, (sums', counts', memb')) ->
+  let n := length data in
+  let k := length centroids in
+  let d := length (hd [] data) in
+  length memb' = length memb /\
+  (forall r, (r < n)%nat ->
+     (asg memb' r < k)%nat /\
+     forall j, (j < k)%nat ->
+       sqdist ROps (nth r data []) (nth (asg memb' r) centroids []) <= sqdist ROps (nth r data []) (nth j centroids [])) /\
+  (forall c q, (c < k)%nat -> (q < d)%nat ->
+     nth q (nth c sums' []) 0 =
+     lsum (fun r => if (asg memb' r =? c)%nat then nth q (nth r data []) 0 else 0) (seq 0 n)) /\
+  (forall c, (c < k)%nat -> nth c counts' 0%nat = lcount (fun r => (asg memb' r =? c)%nat) (seq 0 n)) /\
+  length sums' = k /\ length counts' = k /\
+  dist = lsum (fun r => sqdist ROps (nth r data []) (nth (asg memb' r) centroids [])) (seq 0 n).
+Proof. exact clustering_exact. Qed.
+
+(* ... and that distortion is the one of exhaustive search: no assignment of the rows to these
+   centroids has a smaller one (exhaustive search attains the minimum row by row). *)
+Theorem C12_filter_distortion_minimal : forall data perm t centroids sums counts memb dist sums' counts' memb' (a : nat -> nat),
+  wf_bbd ROps 0 data perm t = true ->
+  clustering ROps perm centroids t (sums, counts, memb) = Some (dist, (sums', counts', memb')) ->
+  (forall r, (r < length data)%nat -> (a r < length centroids)%nat) ->
+  dist <= lsum (fun r => sqdist ROps (nth r data []) (nth (a r) centroids [])) (seq 0 (length data)).
+Proof.
+  intros data perm t centroids sums counts memb dist sums' counts' memb' a Hwf Hcl Ha.
+  destruct (clustering_exact _ _ _ _ _ _ _ _ _ _ _ Hwf Hcl) as [_ H].
+  exact (assignment_optimal _ _ _ _ _ _ a H Ha).
+Qed.
+
+(* Lloyd bookkeeping of `fit` after the seeding: for every initial assignment, every iteration limit
+   >= 1, every value of the "infinite" initial distortion and every well-formed tree, the returned
+   model has k centroids; its labels are cluster indices; the sizes are the label counts and sum to
+   n; every centroid with members is the mean of the rows last assigned to it. *)
+Theorem C12_lloyd_bookkeeping : forall maxv data perm root k max_iter y0 m,
+  wf_bbd ROps 0 data perm root = true -> (1 <= max_iter)%nat ->
+  lloyd ROps maxv data perm root k max_iter y0 = Some m ->
+  let n := length data in
+  let d := length (hd [] data) in
+  let y := km_y m in
+  km_k m = k /\ length (km_centroids m) = k /\ length (km_size m) = k /\
+  (forall r, (r < n)%nat -> (asg y r < k)%nat) /\
+  (forall c, (c < k)%nat -> nth c (km_size m) 0%nat = lcount (fun r => (asg y r =? c)%nat) (seq 0 n)) /\
+  list_sum (km_size m) = n /\
+  (forall c q, (c < k)%nat -> (q < d)%nat -> (0 < nth c (km_size m) 0)%nat ->
+     nth q (nth c (km_centroids m) []) 0 =
+     lsum (fun r => if (asg y r =? c)%nat then nth q (nth r data []) 0 else 0) (seq 0 n)
+     / INR (nth c (km_size m) 0%nat)).
+Proof. exact lloyd_bookkeeping. Qed.
+
+(* predict: the returned index is a centroid at minimal squared Euclidean distance, provided some
+   centroid is closer than the initial `max_value` (over floats: some distance is finite). *)
+Theorem C12_predict_nearest : forall maxv cents row,
+  (exists j, (j < length cents)%nat /\ sqdist ROps row (nth j cents []) < maxv) ->
+  (predict_row ROps maxv cents row < length cents)%nat /\
+  forall j, (j < length cents)%nat ->
+    sqdist ROps row (nth (predict_row ROps maxv cents row) cents []) <= sqdist ROps row (nth j cents []).
+Proof. exact predict_nearest. Qed.
+
+(* ---- extensions that are NOT proved (checked per run only: correspondence `build_node`,
+        `wf_on_dump`, `kmeans_plus_plus_replayed`, and the search) ---- *)
+
+(* tree construction: whenever build_node succeeds on data whose distinct rows differ by at least
+   2e-10 in some coordinate (the leaf rule merges rows closer than 1e-10 — see the report: on data
+   violating this the implementation's tree is NOT well-formed and k-means returns centroids that
+   are not cluster means), the tree is well-formed.  Missing: invariants of the in-place partition
+   loop and of the bounding-box pass. *)
+Definition C12_build_wf_full_statement : Prop :=
+  forall data t perm,
+    (forall r1 r2, (r1 < length data)%nat -> (r2 < length data)%nat -> nth r1 data [] <> nth r2 data [] ->
+       exists q, Rabs (nth q (nth r1 data []) 0 - nth q (nth r2 data []) 0) >= 2 / 10000000000) ->
+    build ROps data = Some (t, perm) -> wf_bbd ROps 0 data perm t = true.
+
+(* k-means++ seeding leaves no cluster empty given k distinct rows and draws r in (0,1].
+   Missing: the invariant that every chosen row is a new distinct row. *)
+Definition C12_kmeanspp_nonempty_full_statement : Prop :=
+  forall maxv data k first rs y chosen,
+    (2 <= k)%nat -> length rs = (k - 1)%nat -> Forall (fun r => 0 < r <= 1) rs ->
+    (forall r, (r < length data)%nat -> forall c, sqdist ROps (nth r data []) c < maxv) ->
+    (exists rows, NoDup (map (fun r => nth r data []) rows) /\ length rows = k /\
+                  forall r, In r rows -> (r < length data)%nat) ->
+    kmeans_plus_plus ROps maxv data k first (map Frac rs) = Some (y, chosen) ->
+    forall c, (c < k)%nat -> exists r, (r < length data)%nat /\ nth r y 0%nat = c.
+
+(* ---- the hypotheses are satisfiable: two rows 0 and 2 on a line, the tree build_node makes ---- *)
+Definition ex_data : list (list R) := [[0]; [2]].
+Definition ex_tree : bbd (T := R) :=
+  Split (mkInfo 2 0 [1] [1] [2] 2) (Leaf (mkInfo 1 0 [0] [0] [0] 0)) (Leaf (mkInfo 1 1 [2] [0] [2] 0)).
+
+Ltac rbool :=
+  repeat (apply andb_true_intro; split);
+  try reflexivity;
+  try (apply Rleb_true; cbn; lra);
+  try (apply Reqb_true; cbn; lra).
+
+Example C12_ex_wf : wf_bbd ROps 0 ex_data [0; 1]%nat ex_tree = true.
+Proof.
+  unfold wf_bbd, ex_data, ex_tree.
+  cbn [wf_tree info_of n_count n_index n_center n_radius n_sum n_cost length hd forallb is_perm seq existsb
+       rows_of map nth all2 in_box vadd node_cost scatter_loop oofnat info_shape
+       oadd osub omul odiv oleb oeqb oofZ o0 ROps Z.of_nat Pos.of_succ_nat Pos.succ Nat.ltb Nat.leb Nat.eqb Nat.add].
+  rbool.
+Qed.
+
+(* the assignment step succeeds on it for the centroid set {0, 3} (any incoming buffers) *)
+Example C12_ex_clustering : exists res,
+  clustering ROps [0; 1]%nat [[0]; [3]] ex_tree ([[5]; [5]], [7; 7]%nat, [9; 9]%nat) = Some res.
+Proof. eexists. unfold clustering. change (shape_ok _ _ _ _) with true. cbv iota. reflexivity. Qed.
+
+(* one Lloyd iteration from the initial assignment [0; 1] returns a model *)
+Example C12_ex_lloyd : exists m, lloyd ROps 1000 ex_data [0; 1]%nat ex_tree 2 1 [0; 1]%nat = Some m.
+Proof.
+  unfold lloyd.
+  cbn [length ex_data Nat.eqb negb hd init_acc repeat Nat.ltb Nat.leb upd nth vadd map2 combine map fst snd].
+  cbn [lloyd_loop]. unfold clustering. change (shape_ok _ _ _ _) with true. cbv iota.
+  match goal with |- context [filter ROps ?p ?c ?t ?cs ?s] => destruct (filter ROps p c t cs s) as [dist [[sums' size'] y']] end.
+  destruct (oleb ROps 1000 dist); eexists; reflexivity.
+Qed.
+
+(* prune succeeds for best = 0, test = 3 on the box [0, 1] (centre 1/2, radius 1/2) *)
+Example C12_ex_prune :
+  in_box ROps 0 [1/2] [1/2] [1] = true /\ prune ROps [1/2] [1/2] [[0]; [3]] 0 1 = true.
+Proof.
+  split.
+  - cbn [in_box oleb osub oadd ROps]. rbool.
+  - unfold prune. cbn [Nat.eqb nth prune_loop oltb osub oadd omul o0 ROps].
+    replace (Rltb 0 (3 - 0)) with true by (symmetry; apply Rltb_true; lra).
+    cbn [oleb omul ROps]. rewrite two_R. apply Rleb_true. lra.
+Qed.
+
+Example C12_ex_predict : exists j, (j < length [[0]; [3]])%nat /\ sqdist ROps [1] (nth j [[0]; [3]] []) < 1000.
+Proof. exists 0%nat. split; [simpl; lia|]. cbn. lra. Qed.
